@@ -59,6 +59,9 @@ pub enum AbortPlan {
     AtPoll(u64),
     /// predicate returns clock >= T (latched)
     AtTime(u64),
+    /// predicate returns true from the p-th evaluation made after the r-th parallel region started (latched):
+    /// places the flip between the first polls of the workers of a region
+    AtRegion(u64, u64),
 }
 
 #[derive(Clone, Copy, Debug, PartialEq, Eq)]
@@ -244,6 +247,8 @@ pub(crate) struct Sim {
     pub step: u64,
     pub clock: u64,
     pub polls: u64,
+    pub regions: u64,
+    pub polls_in_region: u64,
     pub tasks: Vec<TaskInfo>,
     pub cur: Option<usize>,
     pub fingerprint: u64,
@@ -337,6 +342,8 @@ impl Sim {
             step: 0,
             clock: 0,
             polls: 0,
+            regions: 0,
+            polls_in_region: 0,
             tasks: vec![],
             cur: None,
             fingerprint: 0x5157_1234_abcd_ef01,
